@@ -653,6 +653,74 @@ func ruleC15Deferred(c *Checker) {
 		c.pass(R, p.FuncName(u.Unpack), "no early directory restore", p.Pos(u.Unpack.Pos()), "under TypeDir no restore/chmod/chtimes of the entry is reachable inside the loop")
 	}
 	c.check(appended > 0, R, p.FuncName(u.Unpack), "directory recorded", p.Pos(u.Unpack.Pos()), "under TypeDir the entry is appended to the deferred list", "under TypeDir the entry is not recorded for the deferred restore")
+	// … on every path: from the is-a-directory edge, the next entry is not read (and success is not
+	// returned) before the entry was appended to the deferred list
+	U := u.Unpack
+	var next *ssa.Call
+	for _, ci := range callsTo(U, func(o *types.Func) bool { return isMethod(o, "archive/tar", "Reader", "Next") }) {
+		next, _ = ci.(*ssa.Call)
+	}
+	dirT, _ := condEdges(U, func(v ssa.Value) bool {
+		cl, ok := v.(*ssa.Call)
+		return ok && cl.Common().StaticCallee() != nil && cl.Common().StaticCallee().Name() == "IsDirectory"
+	})
+	if next != nil && len(dirT) > 0 {
+		isRecord := func(in ssa.Instruction) bool {
+			cl, ok := in.(*ssa.Call)
+			if !ok {
+				return false
+			}
+			b, ok := cl.Call.Value.(*ssa.Builtin)
+			return ok && b.Name() == "append" && strings.Contains(cl.Type().String(), "UnpackInfo")
+		}
+		// the dispatching test: the one whose true edge owns the directory creation
+		var mk []*ssa.BasicBlock
+		for _, ci := range callsTo(U, func(o *types.Func) bool { return isFunc(o, "os", "MkdirAll") || isFunc(o, "os", "Mkdir") }) {
+			mk = append(mk, ci.Block())
+		}
+		var disp []Edge
+		for _, e := range dirT {
+			for _, b := range mk {
+				if blockDominates(e.To(), b) {
+					disp = append(disp, e)
+					break
+				}
+			}
+		}
+		dirT = disp
+		for i, e := range dirT {
+			bad := ""
+			seen := map[*ssa.BasicBlock]bool{}
+			work := []*ssa.BasicBlock{e.To()}
+			for len(work) > 0 && bad == "" {
+				b := work[len(work)-1]
+				work = work[:len(work)-1]
+				if seen[b] {
+					continue
+				}
+				seen[b] = true
+				if b == next.Block() {
+					bad = "the next entry is read"
+					break
+				}
+				passed := false
+				for _, in := range b.Instrs {
+					if isRecord(in) {
+						passed = true
+						break
+					}
+					if r, ok := in.(*ssa.Return); ok && mayReturnNilErr(r) {
+						bad = "success is returned at " + p.Pos(r.Pos())
+					}
+				}
+				if passed {
+					continue
+				}
+				work = append(work, b.Succs...)
+			}
+			c.check(bad == "", R, p.FuncName(U), fmt.Sprintf("directory recorded on every path %d", i), p.Pos(e.From.Instrs[len(e.From.Instrs)-1].Pos()), "no way from the is-a-directory edge to the next entry without the append", "a directory entry can be passed over ("+bad+") before it was recorded for the deferred restore: that directory — the root entry './' of an archive made with tar -C dir ., a repeated entry — keeps the mode and time it was created with")
+		}
+	}
 }
 
 func ruleC15Truncate(c *Checker) {
